@@ -618,7 +618,36 @@ func runC14(c *Ctx) {
 				okBody = true
 			}
 		}
-		c.Check("C14.S", "splice:body-is-prefix-plus-original", p, cl.Pos(), okBody, "the new body is MultiReader(<spliced prefix>, <original body>) and Close closes the original", "the new body does not continue with the original body / does not close it: the rest of the document is lost or the backend connection leaks")
+		// … and that is the only body the closure installs (no second, shortened body on some path),
+		// and it does not close the original body itself
+		if okBody {
+			for _, st := range StoresToField([]*ssa.Function{cl}, "net/http.Response", "Body") {
+				isShim := false
+				for _, r := range Roots(st.Val) {
+					if a, isA := r.(*ssa.Alloc); isA && NamedTypeRel(a.Type()) == "agent/websockets.shimmedBody" {
+						isShim = true
+					}
+				}
+				if !isShim {
+					okBody = false
+				}
+			}
+			EachInstr(cl, func(i ssa.Instruction) {
+				if cc := CallOf(i); cc != nil && cc.IsInvoke() && cc.Method.Name() == "Close" && PathOf(cc.Value) == P(cl, 0)+".Body" {
+					if _, isDefer := i.(*ssa.Defer); !isDefer {
+						// closing on the read-error path is fine (the response is abandoned): only a close
+						// on a path that returns nil (a served response) cuts the document
+						if hit, _ := (&Walk{Target: func(j ssa.Instruction) bool {
+							r, isR := j.(*ssa.Return)
+							return isR && r.Parent() == cl && len(r.Results) == 1 && IsNilConst(ReturnValue(r, 0))
+						}, Local: true}).FromInstr(i); hit != nil {
+							okBody = false
+						}
+					}
+				}
+			})
+		}
+		c.Check("C14.S", "splice:body-is-prefix-plus-original", p, cl.Pos(), okBody, "the new body is MultiReader(<spliced prefix>, <original body>) and Close closes the original", "the new body does not continue with the original body / does not close it, or another body (without the original) is installed on some path, or the original is closed although the response is served: the rest of the document is lost or the backend connection leaks")
 		// the splice itself
 		rp := Calls(cl, "strings.Replace", "strings.ReplaceAll")
 		ix := Calls(cl, "strings.Index", "strings.IndexByte", "bytes.Index")
